@@ -38,7 +38,8 @@ class Sys:
         ins(r'^<A as (actor::)?Actor>::stopped$', self.m_user('stopped'))
         ins(r'^<A as (handler::)?Handler<.*>>::handle$', self.m_user('handle'))
         ins(r'^<A as (handler::)?StreamHandler<.*>>::(handle|finished)$', self.m_user('stream'))
-        ins(r'^<A as Default>::default$', lambda e, st, fr, t, a: VSym('A::default()', 'A'))
+        ins(r'^<A as Default>::default$', self.m_default_actor)
+        ins(r'^<R as (actor::restart_strategy::)?RestartStrategy<A>>::refresh$', self.m_refresh)
         # closures / dyn dispatch
         ins(r' as Fn(Once|Mut)?<.*>>::call(_once|_mut)?$', self.m_call_closure)
         ins(r'^(dyn_clone::)?clone_box::<', self.m_clone_box)
@@ -56,7 +57,14 @@ class Sys:
         ins(r'^<ActorError as From<.*>>::from$', lambda e, st, fr, t, a: VAgg(name='ActorError', fields={('f', 0): a[0]}, extra={'from': _describe(a[0])}))
         ins(r'^<ActorError as Into<.*>>::into$', lambda e, st, fr, t, a: VAgg(name='BoxError', fields={('f', 0): a[0]}))
         ins(r'^futures_timer::Delay::new$', lambda e, st, fr, t, a: VAgg(name='leaf', extra={'kind': 'delay', 'n': 0}))
-        ins(r'^std::rt::begin_panic::<|^core::panicking::panic|^std::rt::panic_fmt$', self.m_panic)
+        ins(r'^std::rt::begin_panic::<|^core::panicking::panic|^std::rt::panic_fmt$|^std::panic::resume_unwind$', self.m_panic)
+        # runtime: the spawner type parameter is resolved to hannibal's TokioSpawner, tokio itself is modelled
+        ins(r'^<[SP] as (spawner::)?Spawner<(Self|A)>>::(spawn_future|sleep|spawn_actor)', self.m_spawner_dispatch)
+        ins(r'^tokio::spawn::<', self.m_tokio_spawn)
+        ins(r'^tokio::time::sleep$', self.m_tokio_sleep)
+        ins(r'^<M as Clone>::clone$', self.m_msg_clone)
+        ins(r'^std::result::Result::<.*>::is_err$', lambda e, st, fr, t, a: VScalar(e.discriminant_of(st, deref_arg(e, st, a[0])).v == 1) if not isinstance(e.discriminant_of(st, deref_arg(e, st, a[0])).v, int) else VScalar(e.discriminant_of(st, deref_arg(e, st, a[0])).v == 1))
+        ins(r'^std::result::Result::<.*>::is_ok$', lambda e, st, fr, t, a: VScalar(e.discriminant_of(st, deref_arg(e, st, a[0])).v == 0))
         # hannibal's own functions: inline the MIR body (last resort model)
         M.append((R(r'.'), self.m_inline_hannibal))
         self.user_script = {}
@@ -89,6 +97,85 @@ class Sys:
         e.push_call(st, fn, args, ret_dest=t.dest, ret_bb=t.target, unwind_bb=t.unwind)
         return None
 
+    def m_msg_clone(self, e, st, fr, t, args):
+        """<M as Clone>::clone of a scripted message: each clone is a distinct delivery (interval ticks)"""
+        m = deref_arg(e, st, args[0])
+        if isinstance(m, VAgg) and m.name == 'Msg':
+            k = st.meta.get(('clones', m.extra['id']), 0) + 1
+            st.meta[('clones', m.extra['id'])] = k
+            return Msg.new(f"{m.extra['id']}#{k}")
+        return m
+
+    def run_drop_impl(self, st, val, impl):
+        """execute a hannibal `Drop::drop` body for `val` to completion; returns the value after the call"""
+        e = self.eng
+        oid = st.alloc(val)
+        depth = len(st.frames)
+        e.push_call(st, impl, [VRef(('obj', oid), (), True)])
+        leaves = list(e.run(st, stop_depth=depth))
+        if len(leaves) != 1 or leaves[0] is not st:
+            raise Unsupported("Drop impl forked")
+        if st.status == 'returned':
+            st.status = 'running'
+        st.meta.pop('ret', None)
+        out = st.objs[oid]
+        st.objs[oid] = TOMB
+        return out
+
+    def m_default_actor(self, e, st, fr, t, args):
+        n = st.meta.get('defaults', 0) + 1
+        st.meta['defaults'] = n
+        st.event('default_actor', n)
+        return VSym(f"actor_default{n}", 'A')
+
+    def m_refresh(self, e, st, fr, t, args):
+        strategy = getattr(self, 'strategy', 'RestartOnly')
+        cands = [f for f in e.functions if f.name.endswith('::refresh') and f.nargs == 2 and
+                 f"<{strategy} as RestartStrategy<A>>::refresh" in f.ret_type]
+        if len(cands) != 1:
+            raise Unsupported(f"refresh for strategy {strategy}: {len(cands)} candidates")
+        st.event('refresh_call', strategy)
+        e.push_call(st, cands[0], args, ret_dest=t.dest, ret_bb=t.target, unwind_bb=t.unwind)
+        return None
+
+    def m_spawner_dispatch(self, e, st, fr, t, args):
+        m = re.match(r'^<[SP] as (?:spawner::)?Spawner<(?:Self|A)>>::(\w+)(.*)$', t.func, re.S)
+        return e.dispatch(st, fr, t, args, f"<TokioSpawner as Spawner<A>>::{m.group(1)}{m.group(2)}")
+
+    def m_tokio_spawn(self, e, st, fr, t, args):
+        """tokio::spawn(fut): the future becomes a task of the (single-threaded) executor; the JoinHandle observes its
+        result; dropping the handle detaches"""
+        n = st.meta.get('spawned', 0) + 1
+        st.meta['spawned'] = n
+        join = S.mobj(st, 'join', result=None, finished=False, aborted=False)
+        name = st.meta.get('next_task_name') or f"task{n}"
+        st.meta['next_task_name'] = None
+        oid = st.alloc(args[0])
+        tasks = st.meta.get('tasks', ())
+        st.meta['tasks'] = tasks + ((name, oid, 'ready', (), 'future'),)
+        st.meta[('join_of', name)] = join
+        st.event('spawn', name)
+        return S.handle('JoinHandle', join, task=name)
+
+    def m_tokio_sleep(self, e, st, fr, t, args):
+        d = args[0]
+        ticks = (d.extra or {}).get('ticks') if isinstance(d, VAgg) else None
+        if ticks is None:
+            raise Unsupported(f"sleep for a non-scripted duration {d!r}")
+        clock = self.clock(st)
+        now = mget(st, clock)['now']
+        n = st.meta.get('sleeps', 0) + 1
+        st.meta['sleeps'] = n
+        st.event('sleep_start', n, now, now + ticks)
+        return VAgg(name='leaf', extra={'kind': 'sleep', 'n': n, 'deadline': now + ticks})
+
+    def clock(self, st):
+        c = st.meta.get('clock')
+        if c is None:
+            c = S.mobj(st, 'clock', now=0, waiting=())
+            st.meta['clock'] = c
+        return c
+
     def m_next_poll(self, e, st, fr, t, args):
         """<Next<'_, PollFn<Box<dyn FnMut(&mut Context) -> Poll<Option<T>>>>> as Future>::poll: calls the boxed closure"""
         ref = peel(e, st, args[0])
@@ -108,9 +195,9 @@ class Sys:
 
     def m_panic(self, e, st, fr, t, args):
         msg = next((a.text for a in args if isinstance(a, VConst)), '')
-        st.event('panic', 'explicit', msg[:60])
-        st.status = 'panicked'
-        return None
+        st.event('panic', 'explicit', msg[:60] or _callee_short(t.func or ''))
+        st.meta['panic_now'] = True      # unwind along the cleanup edges of the calling frames
+        return [st]
 
     def m_ctx_id(self, e, st, fr, t, args):
         n = st.meta.get('ctx_ids', 0)
@@ -162,6 +249,10 @@ class Sys:
                 v = _load(e, st, tgt)
             else:
                 break
+        if isinstance(v, VAgg) and v.name == 'userfn':
+            k = st.meta.get(('userfn', v.extra['msg']), 0) + 1
+            st.meta[('userfn', v.extra['msg'])] = k
+            return Msg.new(f"{v.extra['msg']}#{k}")
         if isinstance(v, VConst):
             fn = self.resolve_fn_item(v.text)
             if fn is None:
@@ -239,7 +330,7 @@ class Sys:
         e = self.eng
         bn = base_name(ty) if ty else (val.name if isinstance(val, VAgg) else None)
         impl = e.dropper.drop_impls.get(bn) if bn else None
-        if impl is not None and isinstance(val, (VAgg, VSym)):
+        if impl is not None and isinstance(val, VSym):
             oid = st.alloc(val)
             st.meta['conts'] = st.meta.get('conts', []) + [('drop_fields', (oid, why))]
             e.push_call(st, impl, [VRef(('obj', oid), (), True)], ret_dest=None, ret_bb=-1, unwind_bb=None, tag='cont')
@@ -263,6 +354,11 @@ class Sys:
             msg = args[2] if len(args) > 2 else None
             actor = st.meta.get('cur_actor', '?')
             st.event('user_call', kind, n, actor, _describe(msg) if msg is not None else '')
+            if args and isinstance(args[0], VRef) and args[0].mut:
+                cur = deref_arg(e, st, args[0])
+                if isinstance(cur, VSym):
+                    # the callback may change the actor's state: the value is replaced by one that names the callback
+                    e._havoc_ref(st, args[0], f"{kind}#{n}")
             leaf = VAgg(name='leaf', fields={('f', 0): msg if msg is not None else UNIT},
                         extra={'kind': kind, 'n': n, 'ctx': args[1] if len(args) > 1 else None, 'actor': actor})
             return leaf
@@ -280,6 +376,29 @@ class Sys:
                 return S.poll_shared(e, st, ref, fut)
             if fut.name == 'StreamNext':
                 return self.poll_stream_next(st, ref, fut)
+            if fut.name == 'leaf' and fut.extra.get('kind') == 'sleep':
+                clock = self.clock(st)
+                c = mget(st, clock)
+                if c['now'] >= fut.extra['deadline']:
+                    st.event('sleep_done', fut.extra['n'], c['now'])
+                    return [(st, ready(UNIT))]
+                if fut.extra['deadline'] not in c['waiting']:
+                    o = st.objs[clock]
+                    ex = dict(o.extra)
+                    ex['waiting'] = tuple(sorted(set(c['waiting']) | {fut.extra['deadline']}))
+                    st.objs[clock] = VAgg(name=o.name, fields=o.fields, extra=ex)
+                block_on(st, clock)
+                return [(st, PENDING)]
+            if fut.name == 'LockFuture':
+                return S.poll_lock_future(e, st, ref, fut)
+            if fut.name == 'JoinHandle':
+                j = mget(st, fut.extra['oid'])
+                if j['finished']:
+                    res = j['result']
+                    mset(st, fut.extra['oid'], result=None)
+                    return [(st, ready(res))]
+                block_on(st, fut.extra['oid'])
+                return [(st, PENDING)]
             if fut.name == 'leaf':
                 return self.poll_user_leaf(st, ref, fut)
         raise Unsupported(f"poll of unmodelled future {fut!r}")
@@ -303,15 +422,25 @@ class Sys:
                 _store(e, s2, ref, VAgg(name='leaf', fields=fut.fields, extra=ex))
                 s2.event('user_pending', kind, n, fut.extra.get('actor'), _describe(msg))
                 outs.append((s2, PENDING))
+            mid = str((msg.extra or {}).get('id', '')) if isinstance(msg, VAgg) else ''
+            if mid.startswith('panic'):
+                st.event('user_panic', kind, n, fut.extra.get('actor'), mid)
+                st.meta['panic_now'] = True
+                outs.append((st, PENDING))
+                return outs
             self.run_handler_script(st, fut)
             res = self.handler_result(st, fut)
             st.event('user_done', kind, n, fut.extra.get('actor'), _describe(msg))
             outs.append((st, ready(res)))
             return outs
         if kind == 'started':
+            self.run_started_script(st, fut)
             r = self.user_script.get(('started', n), 'ok')
             st.event('user_done', kind, n, fut.extra.get('actor'), r)
             return [(st, ready(ok(UNIT) if r == 'ok' else err(VAgg(name='BoxError', extra={'from': 'started'}))))]
+        if kind == 'userfut':
+            st.event('userfut_run', n, mget(st, self.clock(st))['now'])
+            return [(st, ready(UNIT))]
         if kind in ('stopped', 'stream'):
             st.event('user_done', kind, n, fut.extra.get('actor'), '')
             return [(st, ready(UNIT))]
@@ -343,6 +472,21 @@ class Sys:
         elif mid.startswith('ctxrestart') and ctx is not None:
             r = self.sync_call(st, 'context::Context::<A>::restart', [VRef(ctx.root, ctx.path, False)])
             st.event('script_result', 'ctx.restart', self.describe_result(st, r))
+
+    def run_started_script(self, st, fut):
+        """timer registrations performed by the user's `started` (scenario script): (kind, msg id, ticks)"""
+        ctx = fut.extra.get('ctx')
+        for act in self.user_script.get('started_actions', ()):
+            kind, mid, ticks = act
+            dur = VAgg(name='Duration', extra={'ticks': ticks})
+            cref = VRef(ctx.root, ctx.path, True)
+            if kind == 'interval':
+                self.sync_call(st, 'task_handling::<impl context::Context<A>>::interval::<M>', [cref, Msg.new(mid), dur])
+            elif kind in ('interval_with', 'delayed_send'):
+                self.sync_call(st, f'task_handling::<impl context::Context<A>>::{kind}::<M>', [cref, VAgg(name='userfn', extra={'msg': mid}), dur])
+            elif kind == 'delayed_exec':
+                self.sync_call(st, 'task_handling::<impl context::Context<A>>::delayed_exec::<F>', [cref, VAgg(name='leaf', extra={'kind': 'userfut', 'n': mid}), dur])
+            st.event('timer_registered', kind, mid, ticks, mget(st, self.clock(st))['now'])
 
     def handler_result(self, st, fut):
         msg = fut.fields[('f', 0)]
@@ -430,6 +574,23 @@ class Program:
         st.meta['tasks'] = tuple(out)
 
     def runnable(self, st):
+        r = self._runnable_tasks(st)
+        c = st.meta.get('clock')
+        if c is not None:
+            cl = mget(st, c)
+            nxt = [d for d in cl['waiting'] if d > cl['now']]
+            if nxt:
+                if min(nxt) <= getattr(self, 'max_clock', 10 ** 9):
+                    r.append('clock')
+                else:
+                    st.meta['clock_cut'] = True
+        if getattr(self, 'faults', 0) and st.meta.get('faults_used', 0) < self.faults:
+            for (n, oid, status, blocked, kind) in self.tasks(st):
+                if status != 'done' and n in getattr(self, 'fault_targets', ('loop',)) and st.meta.get(('polled', n)):
+                    r.append('kill:' + n)
+        return r
+
+    def _runnable_tasks(self, st):
         r = []
         for (n, oid, status, blocked, kind) in self.tasks(st):
             if status == 'done':
@@ -463,6 +624,30 @@ class Program:
 
     def step_task(self, st, name):
         """poll task `name` once (client tasks may first start their next operation)."""
+        if name == 'clock':
+            c = st.meta['clock']
+            cl = mget(st, c)
+            nxt = min(d for d in cl['waiting'] if d > cl['now'])
+            mset(st, c, now=nxt, waiting=tuple(d for d in cl['waiting'] if d > nxt))
+            st.event('clock', nxt)
+            yield st
+            return
+        if name.startswith('kill:'):
+            victim = name[5:]
+            st.meta['faults_used'] = st.meta.get('faults_used', 0) + 1
+            for (n, oid, status, blocked, kind) in self.tasks(st):
+                if n == victim:
+                    st.event('task_killed', victim)
+                    val = st.objs.get(oid)
+                    st.objs[oid] = TOMB
+                    self.set_task(st, victim, status='done')
+                    j = st.meta.get(('join_of', victim))
+                    if j is not None:
+                        mset(st, j, finished=True, result=err(VAgg(name='JoinError')))
+                    self.drop_now(st, val, None, f"task {victim} killed")
+            yield st
+            return
+        st.meta[('polled', name)] = True
         for (n, oid, status, blocked, kind) in self.tasks(st):
             if n == name:
                 break
@@ -473,6 +658,19 @@ class Program:
             yield from self.step_client(st, name)
             return
         for l, pv in self.poll_future_obj(st, oid):
+            if l.status == 'panicked':
+                # the task died by unwinding: its cleanup blocks have run; the executor drops what is left of it
+                l.status = 'running'
+                l.unwinding = False
+                l.event('task_panicked', name)
+                val = l.objs.get(oid)
+                l.objs[oid] = TOMB
+                self.set_task(l, name, status='done')
+                j = l.meta.get(('join_of', name))
+                if j is not None:
+                    mset(l, j, finished=True, result=err(VAgg(name='JoinError')))
+                yield l
+                continue
             if l.status != 'running':
                 yield l
                 continue
@@ -501,8 +699,11 @@ class Program:
         st.objs[oid] = TOMB
         if val is not None and val is not TOMB:
             self.drop_now(st, val, None, f"task {name} finished")
-        if res is not None:
-            st.meta[('result', name)] = res
+        j = st.meta.get(('join_of', name))
+        if j is not None:
+            mset(st, j, finished=True, result=ok(res))
+        elif res is not None:
+            self.drop_now(st, res, None, f"result of detached task {name}")
 
     def drop_now(self, st, val, ty, why):
         """run drop glue to completion (including hannibal Drop impls)"""
@@ -574,16 +775,30 @@ class Program:
 
     # ---- exploration
     def explore(self, st):
-        yield from self._explore(st, 0)
+        yield from self._explore(st, 0, ())
 
-    def _explore(self, st, depth):
+    @staticmethod
+    def _dependent(fa, fb):
+        """footprints: frozensets of (object, is_write); dependent iff they share an object one of them writes"""
+        if fa is None or fb is None:
+            return True
+        wa = {o for (o, w) in fa if w}
+        wb = {o for (o, w) in fb if w}
+        oa = {o for (o, w) in fa}
+        ob = {o for (o, w) in fb}
+        return bool(wa & ob) or bool(wb & oa)
+
+    def _explore(self, st, depth, sleep):
+        """DFS over schedules with sleep sets (partial-order reduction): a transition that was fully explored at an
+        ancestor and is independent of everything executed since is not explored again.  `sleep`: tuple of
+        (task name, footprint)."""
         if st.status != 'running':
             self.stats['schedules'] += 1
             yield st
             return
         run = self.runnable(st)
         if not run:
-            st.status = 'quiescent'
+            st.status = 'bound' if st.meta.get('clock_cut') else 'quiescent'
             self.stats['schedules'] += 1
             yield st
             return
@@ -594,10 +809,48 @@ class Program:
             yield st
             return
         run = self.reduce(st, run)
-        for i, name in enumerate(run):
-            s2 = st.clone() if i < len(run) - 1 else st
+        last = st.meta.get('last_task')
+        K = getattr(self, 'max_preemptions', None)
+        asleep = {n for (n, _fp) in sleep}
+        cands = []
+        for name in run:
+            if self.use_sleep_sets and name in asleep:
+                self.stats['sleep_pruned'] = self.stats.get('sleep_pruned', 0) + 1
+                continue
+            cost = 1 if (last is not None and last in run and name != last) else 0
+            if K is not None and st.meta.get('preemptions', 0) + cost > K:
+                self.stats['preemption_cut'] = self.stats.get('preemption_cut', 0) + 1
+                continue
+            cands.append((name, cost))
+        if not cands:
+            # everything enabled is asleep: this state's continuations were covered from an equivalent interleaving
+            if any(n in asleep for n in run):
+                self.stats['sleep_blocked'] = self.stats.get('sleep_blocked', 0) + 1
+                return
+            st.status = 'bound'
+            self.stats['schedules'] += 1
+            yield st
+            return
+        done = []
+        for i, (name, cost) in enumerate(cands):
+            s2 = st.clone() if i < len(cands) - 1 else st
+            s2.meta['last_task'] = name
+            s2.meta['preemptions'] = s2.meta.get('preemptions', 0) + cost
+            s2.meta['fp'] = frozenset()
+            fp_union = frozenset()
             for s3 in self.step_task(s2, name):
-                yield from self._explore(s3, depth + 1)
+                fp = s3.meta.get('fp') or frozenset()
+                fp = fp | {(('task', name), True)}
+                fp_union = fp_union | fp
+                s3.meta['fp'] = None
+                if self.use_sleep_sets:
+                    nsleep = tuple((n, f) for (n, f) in tuple(sleep) + tuple(done) if n != name and not self._dependent(f, fp))
+                else:
+                    nsleep = ()
+                yield from self._explore(s3, depth + 1, nsleep)
+            done.append((name, fp_union))
+
+    use_sleep_sets = True
 
     def reduce(self, st, run):
         return run
